@@ -630,7 +630,8 @@ fn instr_payload(k: usize) -> (Instruction, Option<usize>) {
 }
 
 fn sym_text(k: usize) -> String {
-    if k % 2 == 0 { format!("s{}", k) } else { format!("sym{}", k) }
+    // every third name holds multi-byte characters (byte length differs from character count)
+    if k % 3 == 2 { format!("sé€{}", k) } else if k % 2 == 0 { format!("s{}", k) } else { format!("sym{}", k) }
 }
 
 /// (name, symbol value) of the k-th symbol of a family: 0 = parse_add_symbol names, 1 = raw symbol table, 2 = expression symbols
@@ -1738,6 +1739,9 @@ fn conv_sources() -> Vec<V> {
         V::Range(Box::new(V::Int(1)), Box::new(V::Int(3))),
         V::Concat(Box::new(V::Int(1)), Box::new(V::Int(2))),
         V::SymList(vec![val::SymPart::Sym(symbol_value("a")), val::SymPart::Sym(symbol_value("b"))]),
+        // conversions that give up half way: a pair whose right side is a slice with a fractional range
+        V::Pair(Box::new(V::Int(5)), Box::new(V::Slice(Box::new(V::str("abc")), Box::new(V::Range(Box::new(V::Float(0.5)), Box::new(V::Float(1.5))))))),
+        V::List(vec![V::str("ab"), V::Slice(Box::new(V::str("abc")), Box::new(V::Range(Box::new(V::Float(0.5)), Box::new(V::Float(1.5)))))]),
     ]
 }
 
@@ -1762,10 +1766,22 @@ fn conv_case<D: Subject + val::Adder>(si: usize, ci: usize, preload: usize) -> O
             2 => d.add_symbol_from(a),
             _ => d.add_number_from(a),
         };
+        // whatever the conversion did, the next text constant is stored as written (no residue of a failed or
+        // finished conversion) and an equal one is found again
+        let probe = |d: &mut D| -> Result<Option<(String, String)>, String> {
+            let t1 = put(d, &V::str("zq")).map_err(|e| short_err(&e))?;
+            if get(d, t1) != V::str("zq") {
+                return Ok(Some(("text-added-after-conversion-reads-back-differently".into(), format!("after {} of {}: \"zq\" reads back {}", CONVERSIONS[ci], src.show(), get(d, t1).show()))));
+            }
+            Ok(None)
+        };
         let c = match res {
             Ok(c) => c,
-            Err(_) => return Ok(None),
+            Err(_) => return probe(&mut d),
         };
+        if let Some(x) = probe(&mut d)? {
+            return Ok(Some(x));
+        }
         let want: &[GarnishDataType] = match ci {
             0 => &[GarnishDataType::CharList],
             1 => &[GarnishDataType::ByteList],
@@ -2067,7 +2083,7 @@ impl Property for C15 {
                  lattice: {} configurations (the same + library default), every vector of per-block element counts with sum <= {} (6 operations, one per heap block; the data operation cycles number/register/value/frame/char-list), every outgoing transition of the canonical representative executed and read back, all 15 operation pairs compared in both orders. \
                  periodic: {} configurations (library default 10/+10, 1/x2, 0/+1), every word of length <= {} over the 9 operations repeated to length {}, read-back after every step. \
                  simple: SimpleGarnishData, all histories of length <= {} over its 8 operations. \
-                 intern: SimpleGarnishData, all sequences of length <= {} over {} near-equal constants + pair/list/concatenation; convert: the four add_*_from conversions of 15 source values on both implementations (returned address holds the target type, source and result survive later adds); internpair: every ordered pair of a pool of near-equal scalar constants (same integer part, same fraction, opposite sign, neighbouring code points, equal value in another type) added a, b, a, b. \
+                 intern: SimpleGarnishData, all sequences of length <= {} over {} near-equal constants + pair/list/concatenation; convert: the four add_*_from conversions of 17 source values (two of which make the conversion fail half way; a text constant added afterwards must read back as written) on both implementations (returned address holds the target type, source and result survive later adds); internpair: every ordered pair of a pool of near-equal scalar constants (same integer part, same fraction, opposite sign, neighbouring code points, equal value in another type) added a, b, a, b. \
                  'states' = distinct histories (hist, periodic, simple, intern) or distinct count vectors (lattice); a transition is counted non-trivial when it changes the total allocated size of a non-empty store (Basic), adds to a non-empty store (Simple) or re-adds an already stored constant (intern).",
                 p.hist_cfgs.len(),
                 if tier == Tier::Thorough { " and three mixed per-block policies" } else { "" },
